@@ -87,7 +87,7 @@ pub struct FramebufferTag {
     //  sane bootloader puts something illegal there at the moment. When we
     //  refactor this (newtype pattern?), we should also streamline other
     //  parts in the code base accordingly.
-    framebuffer_type: FramebufferTypeId,
+    framebuffer_type: u8, /* FramebufferTypeId; u8 as unknown values may occur */
 
     _padding: u16,
 
@@ -170,7 +170,7 @@ impl FramebufferTag {
 
         // TODO: We should use the newtype pattern instead or so to properly
         //  solve this.
-        let fb_type_raw = self.framebuffer_type as u8;
+        let fb_type_raw = self.framebuffer_type;
         let fb_type = FramebufferTypeId::try_from(fb_type_raw)?;
 
         match fb_type {
